@@ -22,7 +22,7 @@ from xeofs.preprocessing import PCA, Whitener
 
 PROP = "C16"
 TAGS = {"C16"}
-INV = ["C09_Descending", "C16_WhitenedCovIsPower", "Emit"]
+INV = ["C09_Descending", "C16_WhitenedCovIsPower", "C16_GainConsistent", "Emit"]
 
 
 def cfg(tier):
@@ -150,6 +150,24 @@ def evaluate(i, scn):
     A = (CW.H[:, 1:1 + r] * sx) @ V.conj().T
     a = CW.ALPHA[c["alpha"][0]]
     whitener_facts(ck, A, a, f"world sx={c['sx']} {'complex' if cplx else 'real'}", pred_eig=pred["wcovx16"], dask=(i % 4 == 1) and not cplx)
+    # exact gains of the four maps on the principal directions the harness built (columns of V)
+    try:
+        wh = Whitener(alpha=a)
+        Xa = da2(A)
+        wh.fit(Xa)
+        n = A.shape[0]
+        for kap in (n, n - 1):
+            g = np.array([(gn / gd) * (16.0 / kap) ** ((1 - a) / 2) for gn, gd in pred["gainx"]])      # (s^2/kappa)^((alpha-1)/2)
+            Pd = xr.DataArray(V, dims=("feature", "mode"), coords=dict(feature=np.arange(r), mode=np.arange(1, r + 1)))
+            into = np.asarray(wh.transform_components(Pd).transpose("feature", "mode").values)
+            out = np.asarray(wh.inverse_transform_components(Pd).transpose("feature", "mode").values)
+            ok = np.abs(into - V * g).max() <= 1e-8 * max(g.max(), 1) and np.abs(out - V / g).max() <= 1e-8 * max((1 / g).max(), 1)
+            if ok:
+                break
+        ck.p(ok, "C16", "C16_PatternMapsInvert", f"world sx={c['sx']} alpha={a}: patterns along the principal directions are not multiplied by the gain (s^2/kappa)^((alpha-1)/2) "
+                                                  f"on entering the whitened space and by its inverse on leaving it")
+    except Exception as e:  # noqa
+        ck.d(False, "C16", "C16_Raised", f"pattern maps raised {type(e).__name__}: {str(e)[:120]}")
     if i % 3 == 0:
         order = np.argsort(-sx, kind="stable")
         for nm in ("all", max(1, r - 1), 0.9):
